@@ -531,6 +531,12 @@ def run(model, col, tier):
     # ---------------- R10.3 ------------------------------------------------------
     ctv = model.cls(CT, "ComputeTypeVisitor")
     ctm = ctv.own_method("v_Module")
+    if ctm is not None:
+        from ..sem import expand_helpers as _xh_ctm
+
+        # e.g. an extracted `__RegisterImports(module, ctx)` is read in place (the per-function registration helper stays a call:
+        # the order rule below names it)
+        ctm = _xh_ctm(model, ctv, ctm, skip=("v_", "__RegisterFunction", "_ComputeTypeVisitor__RegisterFunction"))
     order = []
     for st in ctm.body:
         t = unparse(st)
